@@ -153,7 +153,13 @@ def build_reference(repo, modules):
         if fi.module.name in modules and not fi.is_lambda:
             ref[q] = describe(fi.node)
             ref[q].update(describe_tests(fi.node))
+            ref[q]["digest"] = _digest(fi.node)
     return ref
+
+
+def _digest(fnode):
+    import hashlib
+    return hashlib.sha1(ast.dump(fnode).encode()).hexdigest()[:16]
 
 
 def load_reference():
@@ -167,6 +173,8 @@ def load_reference():
 def apply_reference(repo):
     """rename locals / parameters of the in-memory ASTs to the reference names where the structure matches"""
     ref = load_reference()
+    # a function whose tree is identical to the reference needs no translation
+    ref = {q: r for q, r in ref.items() if q in repo.funcs and not repo.funcs[q].is_lambda and r.get("digest") != _digest(repo.funcs[q].node)}
     renamed = {}
     for q, fi in repo.funcs.items():
         if fi.is_lambda or q not in ref:
